@@ -266,6 +266,312 @@ def facts(par, o):
                 hierarchy_errors=sum(1 for h in o['hier'] if h is None))
 
 
+
+# ------------------------------------------------------------------------------------------
+# LARGE graphs (15 .. 500 nodes): dense layers, chains, fans, random DAGs, cyclic ones; several
+# node-list orders; built through the nodes setter, the constructor and add_node
+# ------------------------------------------------------------------------------------------
+REQ_BIG = ['Graph.QueriesSpec', 'Graph.Queries', 'Graph.QueriesBig']
+FN_BIG = 'check_big'
+LIT_BUDGET = 150000        # path prefixes the literal node_depth model may walk in one Coq case
+PY_PATH_BUDGET = 300000    # shapes are generated so that the real node_depth walks fewer steps
+
+
+def s_layered(layers, width, final=True):
+    """complete bipartite layers, sources first; optionally one final node on the last layer"""
+    par, prev = [], []
+    for _ in range(layers):
+        cur = list(range(len(par), len(par) + width))
+        par.extend([list(prev) for _ in cur])
+        prev = cur
+    if final:
+        par.append(list(prev))
+    return par
+
+
+def s_dense(n):
+    return [list(range(i)) for i in range(n)]
+
+
+def s_chain(n):
+    return [[i - 1] if i else [] for i in range(n)]
+
+
+def s_fan(k, tail=2):
+    """a source, k middle nodes on it, one node with the k middle nodes as parents, then a short chain"""
+    par = [[]] + [[0] for _ in range(k)] + [list(range(1, k + 1))]
+    for _ in range(tail):
+        par.append([len(par) - 1])
+    return par
+
+
+def s_random_dag(r, n, indeg):
+    par = []
+    for i in range(n):
+        k = min(i, r.choice(indeg))
+        par.append(r.sample(range(i), k))
+    return par
+
+
+def path_prefixes(par):
+    """P[v] = number of path prefixes of the path walk from v (None for cyclic graphs)"""
+    n = len(par)
+    state, P = [0] * n, [0] * n
+    for root in range(n):
+        if state[root]:
+            continue
+        stack = [(root, iter(par[root]))]
+        state[root] = 1
+        while stack:
+            v, it = stack[-1]
+            p = next(it, None)
+            if p is None:
+                state[v] = 2
+                P[v] = 1 + sum(P[q] for q in par[v])
+                stack.pop()
+            elif state[p] == 1:
+                return None
+            elif state[p] == 0:
+                state[p] = 1
+                stack.append((p, iter(par[p])))
+    return P
+
+
+def big_shapes(r, thorough):
+    """(kind, parent lists on labels in sources-first order, acyclic?)"""
+    out = []
+    lay = [(6, 5), (4, 8), (7, 4), (5, 7), (9, 3), (3, 12)]
+    if thorough:
+        lay += [(8, 4), (6, 6), (5, 8), (10, 3), (4, 10)]
+    for L, w in lay:
+        out.append(('layered%dx%d' % (L, w), s_layered(L, w), True))
+    out.append(('layered-nofinal', s_layered(5, 5, final=False), True))
+    for n in ((15, 16) if not thorough else (14, 15, 16, 17)):
+        out.append(('dense%d' % n, s_dense(n), True))
+    for n in ((120, 300) if not thorough else (100, 200, 350, 500)):
+        out.append(('chain%d' % n, s_chain(n), True))
+    for k in ((30, 45) if not thorough else (30, 40, 60, 80)):
+        out.append(('fan%d' % k, s_fan(k), True))
+    for _ in range(4 if not thorough else 16):
+        n = r.randrange(20, 61)
+        for _try in range(20):
+            par = s_random_dag(r, n, r.choice([[0, 1, 1, 2], [1, 2, 2, 3], [0, 1, 2, 4], [1, 1, 1, 1]]))
+            P = path_prefixes(par)
+            if max(P) <= PY_PATH_BUDGET // 4:
+                break
+        out.append(('random-dag%d' % n, par, True))
+    # two disjoint parts
+    a, b = s_layered(3, 4), s_chain(25)
+    out.append(('union', a + [[p + len(a) for p in ps] for ps in b], True))
+    # cyclic ones
+    ring = s_chain(60)
+    ring[0] = [59]
+    out.append(('ring60', ring, False))
+    ch = s_chain(150)
+    ch[40] = [39, 120]
+    out.append(('chain150+back', ch, False))
+    for _ in range(2 if not thorough else 8):
+        n = r.randrange(22, 50)
+        for _try in range(50):
+            par = s_random_dag(r, n, [0, 1, 1, 2])
+            if max(path_prefixes(par)) <= 1000:
+                break
+        a, b = sorted(r.sample(range(n), 2))
+        if b not in par[a]:
+            par[a].append(b)          # an edge from an earlier to a later label: may or may not close a cycle
+        out.append(('random+back%d' % n, par, path_prefixes(par) is not None))
+    loop = s_fan(30)
+    loop[5].append(5)
+    out.append(('fan30+selfloop', loop, False))
+    mix = s_layered(3, 5) + [[len(s_layered(3, 5)) + (i + 1) % 25] for i in range(25)]
+    out.append(('dag+sinkless-ring', mix, False))
+    return out
+
+
+def build_big(par0, order, mode):
+    """real graph from the structure par0 (labels), handing the nodes over in the given order;
+    returns graph, its node list and the parent lists by position in graph.nodes"""
+    n = len(par0)
+    nodes = [OptNode('n%d' % i) for i in range(n)]
+    for i, ps in enumerate(par0):
+        nodes[i].nodes_from = [nodes[p] for p in ps]
+    seq = [nodes[i] for i in order]
+    if mode == 'setter':
+        g = OptGraph()
+        g.nodes = list(seq)
+    elif mode == 'ctor':
+        g = OptGraph(seq)
+    else:
+        g = OptGraph()
+        for nd in seq:
+            g.add_node(nd)
+    actual = list(g.nodes)
+    idx = {id(nd): i for i, nd in enumerate(actual)}
+    if len(idx) != n or len(actual) != n:
+        raise AssertionError('builder %s produced %d nodes for a closed graph of %d' % (mode, len(actual), n))
+    par = [[idx[id(p)] for p in nd.nodes_from] for nd in actual]
+    return g, actual, par
+
+
+def observe_big(g, nodes, par, qnodes, queries):
+    idx = {id(nd): i for i, nd in enumerate(nodes)}
+    ix = lambda nd: idx[id(nd)]
+    odd = []
+
+    def hier(v):
+        try:
+            return [ix(x) for x in ordered_subnodes_hierarchy(nodes[v])]
+        except ValueError:
+            return None
+
+    def ndl(vs):
+        try:
+            return int(node_depth([nodes[v] for v in vs]))
+        except ValueError:
+            return None
+
+    def droot(v):
+        x = distance_to_root_level(g, nodes[v])
+        return -2 if x is None else int(x)
+
+    signal.signal(signal.SIGALRM, _alarm)
+    signal.setitimer(signal.ITIMER_REAL, 2 * WATCHDOG_S)
+    try:
+        o = {
+            'cycle': bool(graph_has_cycle(g)),
+            'depth': int(g.depth),
+            'roots': [ix(x) for x in g.root_nodes()],
+            'edges': [[ix(p), ix(c)] for p, c in g.get_edges()],
+            'nodes': [{'v': v, 'children': [ix(x) for x in g.node_children(nodes[v])], 'hier': hier(v),
+                       'ndepth': int(node_depth(nodes[v])), 'dprim': int(distance_to_primary_level(nodes[v])),
+                       'droot': droot(v)} for v in qnodes],
+            'ndlist': [[list(vs), ndl(vs)] for vs in queries],
+        }
+    finally:
+        signal.setitimer(signal.ITIMER_REAL, 0)
+    if [[ix(p) for p in nd.nodes_from] for nd in g.nodes] != [list(ps) for ps in par] or \
+            [id(x) for x in g.nodes] != [id(x) for x in nodes]:
+        odd.append('a query modified the graph')
+    return o, odd
+
+
+def big_case_coq(lit, par, o):
+    g = c_list([nl(ps) for ps in par], '(list nat)')
+    qs = c_list(['{| nq_node := %s; nq_children := %s; nq_hier := %s; nq_ndepth := %s; nq_dprim := %s; nq_droot := %s |}' % (
+        c_nat(q['v']), nl(q['children']), c_opt(q['hier'], nl, '(list nat)'), c_Z(q['ndepth']), c_Z(q['dprim']),
+        c_Z(q['droot'])) for q in o['nodes']], 'nobs')
+    ob = '{| bo_cycle := %s; bo_depth := %s; bo_roots := %s; bo_edges := %s; bo_nodes := %s; bo_ndlist := %s |}' % (
+        c_bool(o['cycle']), c_Z(o['depth']), nl(o['roots']),
+        c_list(['(%s, %s)' % (c_nat(p), c_nat(c)) for p, c in o['edges']], '(nat * nat)'), qs,
+        c_list(['(%s, %s)' % (nl(vs), c_opt(d, c_Z, 'Z')) for vs, d in o['ndlist']], '(list nat * option Z)'))
+    return '(%s, %s, %s)' % (c_bool(lit), g, ob)
+
+
+def big_queries(par, r):
+    n = len(par)
+    used = {p for ps in par for p in ps}
+    sinks = [v for v in range(n) if v not in used]
+    sources = [v for v in range(n) if not par[v]]
+    qn = [0, n - 1]
+    if sinks:
+        qn.append(r.choice(sinks))
+    if sources:
+        qn.append(r.choice(sources))
+    qn += [r.randrange(n), r.randrange(n)]
+    qnodes = list(dict.fromkeys(qn))
+    lists = [list(range(n))]
+    if sinks:
+        lists.append(sinks)
+    lists.append(r.sample(range(n), min(n, 8)))
+    return qnodes, lists
+
+
+def literal_ok(par, qnodes, lists):
+    """may the literal path walk of the model be evaluated on this case?"""
+    P = path_prefixes(par)
+    if P is None:
+        return False
+    used = {p for ps in par for p in ps}
+    sinks = [v for v in range(len(par)) if v not in used]
+    work = 2 * sum(P[v] for v in qnodes) + sum(P[v] for v in sinks) + sum(P[v] for vs in lists for v in vs)
+    return work <= LIT_BUDGET
+
+
+def evaluate_big(ctx, group, specs):
+    """specs: (kind, par0, order-name, order, mode).  Builds, observes, evaluates in Coq."""
+    r = ctx.rng
+    cases, meta = [], []
+    for spec in specs:
+        kind, par0, oname, order, mode = spec[:5]
+        case = {'big': True, 'kind': kind, 'par0': par0, 'order': order, 'mode': mode, 'order_name': oname}
+        try:
+            g, nodes, par = build_big(par0, order, mode)
+            if len(spec) > 5 and spec[5]:          # replay: the recorded query nodes and node lists
+                qnodes, lists = spec[5], spec[6]
+            else:
+                qnodes, lists = big_queries(par, r)
+            case['qnodes'], case['queries'] = qnodes, lists
+            o, odd = observe_big(g, nodes, par, qnodes, lists)
+        except Hang:
+            ctx.count(group, key=repr((par0, order, mode)), nontrivial=True, kind=kind, hang=True)
+            ctx.violate(group, case, 'a structural query did not return within %d s on a graph of %d nodes (hang)'
+                        % (2 * WATCHDOG_S, len(par0)))
+            continue
+        except RecursionError as ex:
+            ctx.count(group, key=repr((par0, order, mode)), nontrivial=True, kind=kind, hang=True)
+            ctx.violate(group, case, 'recursion limit exhausted on a graph of %d nodes: %s' % (len(par0), ex))
+            continue
+        for what in odd:
+            ctx.disagree(group, case, what)
+        lit = literal_ok(par, qnodes, lists)
+        case['literal_node_depth_model'] = lit
+        case['observed'] = {k: v for k, v in o.items() if k not in ('edges',)}
+        cases.append(big_case_coq(lit, par, o))
+        meta.append((case, o, par))
+    # the cost in Coq grows like n^3 (unary numbers): long chains get a coqc each, the rest is batched
+    heavy = [i for i, m in enumerate(meta) if len(m[2]) >= 100]
+    light = [i for i, m in enumerate(meta) if len(m[2]) < 100]
+    res = [None] * len(meta)
+    for ids, shard in ((heavy, 1), (light, 4)):
+        out = ctx.coq_cases(group, REQ_BIG, FN_BIG, [cases[i] for i in ids], K, shard=shard,
+                            case_ty='bool * dg * bobs', timeout=600)
+        for i, flags in zip(ids, out):
+            res[i] = flags
+    for (case, o, par), flags in zip(meta, res):
+        n = len(par)
+        ctx.count(group, key=repr((par, case['mode'])), nontrivial=True, kind=case['kind'].rstrip('0123456789x'),
+                  n=(n // 20) * 20, order=case['order_name'], mode=case['mode'], cyclic=o['cycle'],
+                  literal_model=case['literal_node_depth_model'], depth=o['depth'])
+        ag, ho = flags[:len(AGREE)], flags[len(AGREE):]
+        for name, ok in zip(HOLDS, ho):
+            if not ok:
+                ctx.violate(group, case, name + ' [graph of %d nodes, %s, %s order, built by %s]'
+                            % (n, case['kind'], case['order_name'], case['mode']))
+        for name, ok in zip(AGREE, ag):
+            if not ok:
+                ctx.disagree(group, case, 'model and implementation differ on ' + name)
+    return meta
+
+
+def big_specs(ctx):
+    r = ctx.rng
+    specs = []
+    modes = ['setter', 'ctor', 'add']
+    k = 0
+    for kind, par0, acyclic in big_shapes(r, ctx.tier == 'thorough'):
+        n = len(par0)
+        par0 = [r.sample(ps, len(ps)) for ps in par0]
+        orders = [('sources-first', list(range(n))), ('sinks-first', list(range(n - 1, -1, -1))),
+                  ('shuffled', r.sample(range(n), n))]
+        if ctx.tier != 'thorough':
+            # quick: two of the three orders per shape, rotating; sources-first always (parents before children)
+            orders = [orders[0], orders[1 + k % 2]]
+        for oname, order in orders:
+            specs.append((kind, par0, oname, order, modes[k % 3]))
+            k += 1
+    return specs
+
+
 # ------------------------------------------------------------------------------------------
 def evaluate(ctx, group, items):
     """items: list of (par, queries).  Observes, evaluates in Coq, books the results."""
@@ -330,6 +636,9 @@ def run(ctx):
     pending = ctx.__dict__.pop('c12_corpus', [])
     if pending:
         evaluate(ctx, 'corpus', pending)
+    pending = ctx.__dict__.pop('c12_corpus_big', [])
+    if pending:
+        evaluate_big(ctx, 'corpus-large', pending)
     # ---- exhaustive small scope
     small = []
     for n in range(0, 4):
@@ -352,6 +661,10 @@ def run(ctx):
         items = [(par, default_queries(par, r, lean=True)) for par in all_dags(5)]
         evaluate(ctx, 'dags5', items)
         ctx.set_exhaustive('dags5', True)
+    # ---- large graphs
+    meta = evaluate_big(ctx, 'large', big_specs(ctx))
+    for case, o, par in meta[:1]:
+        ctx.sample({k: v for k, v in case.items() if k not in ('par0', 'order', 'queries', 'observed')})
     # ---- structured random
     items = []
     for _ in range(ctx.budget(1500, 6000)):
@@ -375,10 +688,21 @@ def run(ctx):
 def replay(ctx, payload):
     v = payload.get('violation') or payload.get('first_disagreement') or payload
     case = v.get('case') if isinstance(v, dict) else None
-    if not case or 'par' not in case:
+    if not case:
+        return
+    deferred = payload.get('corpus') and '--replay' not in sys.argv
+    if case.get('big'):
+        spec = (case.get('kind', 'replay'), [list(ps) for ps in case['par0']], case.get('order_name', 'given'),
+                list(case['order']), case['mode'], case.get('qnodes'), case.get('queries'))
+        if deferred:
+            ctx.__dict__.setdefault('c12_corpus_big', []).append(spec)
+        else:
+            evaluate_big(ctx, 'replay', [spec])
+        return
+    if 'par' not in case:
         return
     item = ([list(ps) for ps in case['par']], [list(q) for q in case.get('queries', [])])
-    if payload.get('corpus') and '--replay' not in sys.argv:
+    if deferred:
         # corpus files are evaluated together at the start of run() (one coqc instead of one per file)
         ctx.__dict__.setdefault('c12_corpus', []).append(item)
         return
